@@ -50,13 +50,16 @@ Definition attr_bound (o : options) (a : str) : str :=
   attribute_prefix o ++ (if starts_with_xmlns a then a else remove_namespace a).
 
 (* ---------- reflects: the structs mirror the tree (C03 render clause, C16, C04 types) ---------- *)
+(* a rename is emitted exactly when the bound name differs from the identifier *)
+Definition rename_ok (f : pfield) : bool :=
+  match pf_rename f with Some r => negb (str_eqb r (pf_ident f)) | None => true end.
 Definition attr_field_ok (o : options) (a : nec * str) (f : pfield) : bool :=
-  str_eqb (bound f) (attr_bound o (snd a)) && is_string f
+  str_eqb (bound f) (attr_bound o (snd a)) && is_string f && rename_ok f
   && wrap_eqb (pf_wrap f) (match fst a with Mand => WPlain | Opt => WOption end).
 Definition text_field_ok (o : options) (f : pfield) : bool :=
-  str_eqb (bound f) (text_identifier o) && is_string f && wrap_eqb (pf_wrap f) WOption.
+  option_eqb str_eqb (pf_rename f) (Some (text_identifier o)) && is_string f && wrap_eqb (pf_wrap f) WOption.
 Definition child_field_ok (c : nec * element) (f : pfield) : bool :=
-  str_eqb (bound f) (remove_namespace (ename (snd c)))
+  str_eqb (bound f) (remove_namespace (ename (snd c))) && rename_ok f
   && wrap_eqb (pf_wrap f) (child_wrap (estandalone (snd c)) (fst c))
   && Bool.eqb (is_string f) (contains_only_text (snd c)).
 
@@ -203,3 +206,89 @@ Fixpoint clash_free_tree (e : element) : bool :=
       && (fix go (cs : list (nec * element)) : bool :=
             match cs with [] => true | c :: r => clash_free_tree (snd c) && go r end) ch
   end.
+
+(* ---------- pairing nodes with their structs (pre-order, output order) ---------- *)
+Fixpoint pair_go (e : element) (pth : list str) (ps : list pstruct) {struct e}
+  : option (list (list str * element * pstruct) * list pstruct) :=
+  match e with
+  | Elem _ _ _ _ _ ch _ =>
+      match ps with
+      | [] => None
+      | p :: rest =>
+          let path1 := pth ++ [ename e] in
+          (fix go (cs : list (nec * element)) (acc : list (list str * element * pstruct))
+               (ps : list pstruct) {struct cs} :=
+             match cs with
+             | [] => Some (acc, ps)
+             | c :: cs' =>
+                 if contains_only_text (snd c) then go cs' acc ps
+                 else match pair_go (snd c) path1 ps with
+                      | Some (l, ps') => go cs' (acc ++ l) ps'
+                      | None => None end
+             end) ch [(path1, e, p)] rest
+      end
+  end.
+Definition pair_structs (o : options) (e : element) (ps : list pstruct)
+  : option (list (list str * element * pstruct)) :=
+  match pair_go (sort_tree_by (order_of o) e) [] ps with Some (l, []) => Some l | _ => None end.
+
+(* ---------- C14: struct names ---------- *)
+Fixpoint is_prefix (a b : str) : option str :=      (* b = a ++ rest *)
+  match a, b with
+  | [], _ => Some b
+  | x :: a', y :: b' => if x =? y then is_prefix a' b' else None
+  | _ :: _, [] => None
+  end.
+Definition digits_only (x : str) : bool := forallb a_digit x.
+Definition lastn {A} (m : nat) (l : list A) : list A := skipn (List.length l - m) l.
+Definition shape_with (m : nat) (pth : list str) (name : str) : bool :=
+  match is_prefix (List.concat (map to_pascal_case (lastn m pth))) name with
+  | Some sfx => digits_only sfx
+  | None => false end.
+Definition shape_ok (pth : list str) (name : str) : bool :=
+  existsb (fun m => shape_with m pth name) (seq 1 (List.length pth)).
+Fixpoint count_formatted (x : str) (e : element) : nat :=
+  match e with
+  | Elem _ _ _ _ _ ch _ =>
+      (if str_eqb (formatted_name e) x then 1 else 0)%nat
+      + (fix go (cs : list (nec * element)) : nat :=
+           match cs with [] => O | c :: r => (count_formatted x (snd c) + go r)%nat end) ch
+  end.
+Definition names_b (o : options) (e : element) (ps : list pstruct) : bool :=
+  match pair_structs o e ps with
+  | None => false
+  | Some l =>
+      forallb (fun '(pth, nd, p) =>
+                 shape_ok pth (ps_name p)
+                 && ((negb (count_formatted (formatted_name nd) e =? 1)%nat) || shape_with 1 pth (ps_name p))) l
+      && match l, ps with
+         | (_, _, p) :: _, q :: _ => str_eqb (ps_name p) (ps_name q) && shape_with 1 [ename e] (ps_name q)
+         | _, _ => false end
+  end.
+
+(* ---------- C09: switching the sort option changes nothing but orders ---------- *)
+Definition same_fields (a b : list pfield) : bool :=
+  (List.length a =? List.length b)%nat
+  && forallb (fun f => existsb (pfield_eqb f) b) a && forallb (fun f => existsb (pfield_eqb f) a) b.
+Definition only_order_b (a b : list pstruct) : bool :=
+  (List.length a =? List.length b)%nat
+  && forallb (fun p => existsb (fun q => str_eqb (ps_name p) (ps_name q)
+                                        && option_eqb str_eqb (ps_derive p) (ps_derive q)
+                                        && same_fields (ps_fields p) (ps_fields q)) b) a.
+Definition sorted_b (l : list str) : bool :=
+  (fix go (l : list str) : bool :=
+     match l with
+     | x :: ((y :: _) as r) => str_ltb x y && go r
+     | _ => true end) l.
+
+(* ---------- C10 ---------- *)
+Definition derive_b (o : options) (ps : list pstruct) : bool :=
+  forallb (fun p => option_eqb str_eqb (ps_derive p) (if is_nil (derive o) then None else Some (derive o))) ps.
+(* what must not depend on prefix / text identifier / derive / preset *)
+Definition erase_bindings (ps : list pstruct) : list (str * list (str * wrap * tyname)) :=
+  map (fun p => (ps_name p, map (fun f => (pf_ident f, pf_wrap f, pf_ty f)) (ps_fields p))) ps.
+Definition erased_eqb (a b : list (str * list (str * wrap * tyname))) : bool :=
+  list_eqb (fun x y => str_eqb (fst x) (fst y)
+                       && list_eqb (fun f g => str_eqb (fst (fst f)) (fst (fst g))
+                                               && wrap_eqb (snd (fst f)) (snd (fst g))
+                                               && ty_eqb (snd f) (snd g)) (snd x) (snd y)) a b.
